@@ -77,6 +77,7 @@ type pipeCfg struct {
 	mirrorDead bool
 	qcap       int // capacity of every queue created with a literal capacity (0 = as written, 1000)
 	udpSize    int // <protocol>-max-udp-size (0 = the default 1500)
+	verbose    bool // -verbose: the collector logs what it drops (the logger writes to nowhere)
 }
 
 // resetPipe re-creates every package-level object of one pipeline and the options.
@@ -86,6 +87,7 @@ func resetPipe(c pipeCfg) proto {
 	o := NewOptions()
 	o.Logger = logger
 	o.ProducerEnabled, o.DynWorkers, o.IPFIXRPCEnabled, o.StatsEnabled = false, false, false, false
+	o.Verbose = c.verbose
 	o.VFlowConfigPath = filepath.Join(pipeTmpGet(), "no-such-config-dir")
 	o.SFlowEnabled, o.IPFIXEnabled, o.NetflowV5Enabled, o.NetflowV9Enabled = false, false, false, false
 	o.IPFIXTplCacheFile = filepath.Join(pipeTmpGet(), "unused-ipfix.cache")
@@ -478,6 +480,7 @@ type pipeRun struct {
 	// retire: after the first datagram has been processed, this many workers are retired the way the dynamic-worker
 	// controller does it when the load has gone (it takes their quit channels out of the pool and closes them)
 	retire int
+	verbose bool // run with -verbose: what is logged about a datagram must not matter to the next one
 }
 
 type pipeObs struct {
@@ -525,7 +528,7 @@ func runPipe(r *pipeRun, out *pipeObs, mu *realsync.Mutex) {
 		cfg.mirror = mirrorListener()
 		drainMirror()
 	}
-	cfg.mirrorDead, cfg.qcap = r.mirrorDead, r.qcap
+	cfg.mirrorDead, cfg.qcap, cfg.verbose = r.mirrorDead, r.qcap, r.verbose
 	if r.fitBuffer {
 		for _, d := range r.seq {
 			if len(d.wire) > cfg.udpSize {
@@ -958,6 +961,9 @@ func c01Items(tier string) []pipeItem {
 			cache = preloadCache(p == ppV9)
 		}
 		out = append(out, pipeItem{"two workers, good and malformed", pipeRun{proto: p, workers: 2, seq: seqOf(al, "dataA-mid", "truncated", "dataA-long", "wrong-version"), cache: cache}, b})
+		// the same with -verbose (a legal setting that switches on code which otherwise never runs: what the workers log
+		// about the datagrams they drop), one worker: every malformed class, each followed by a good datagram
+		out = append(out, pipeItem{"verbose logging, one worker, malformed between good", pipeRun{proto: p, workers: 1, seq: seqOf(al, "wrong-version", "dataA-mid", "truncated", "dataB-short"), cache: cache, verbose: true}, 0})
 		if p == ppIPFIX || p == ppV9 {
 			out = append(out, pipeItem{"two workers, cached templates, unknown template, in-band template", pipeRun{proto: p, workers: 2, seq: seqOf(al, "dataA-mid", "dataA-long", "unknown-tpl", "inband-tpl", "inband-data"), cache: cache, inband: true}, b})
 		}
